@@ -41,6 +41,7 @@ RULE += ' Round 9: a foreign two-column cluster_quality.csv next to the saved cl
 RULE += ' Round 10: recordings shorter than one waveform window.'
 RULE += ' Round 11: a 16-byte header on each of two raw files; a comma-separated table with a tab inside a cell; a table that is a dangling symbolic link.'
 RULE += ' Round 12: requests that mix stored spikes with a non-stored one lying between them (unit factor 1).'
+RULE += ' Round 13: a foreign table with a summary row whose id cell is no integer.'
 EXHAUSTIVE = {'quick': True, 'thorough': True}
 EXHAUSTIVE_SCOPE = {'quick': 'histories of length <= 2 over the 9-operation reduced alphabet; random part sampled',
                     'thorough': 'histories of length <= 3 over the reduced alphabet; random part sampled'}
